@@ -28,6 +28,7 @@ LEVEL_TEXT = ("Exploration by generated-input search with a reference model: pos
               "clause (every RFC-unevaluable pointer raises JSONPointerResolutionError / returns the default, exists "
               "is false); documented extensions are excluded and counted. All pointers of <= 2 tokens over a delicate "
               "token alphabet x a small document universe are enumerated exhaustively.")
+LEVEL_TEXT += ' Every pointer text is first handed over under the other flag settings (default decoding, URI decoding) before it is resolved with escape decoding off (history independence); the thorough tier adds an atheris campaign with the same reference oracle.'
 BUDGET_S = {"quick": 70, "thorough": 700}
 RULE = ("Documents from the nasty-name generator; for each node the pointer spelled by the reference encoder, and "
         "one-token mutations of it (absent member, integer look-alikes, index = len / len+1 / huge, '-', tokens "
